@@ -43,6 +43,29 @@ async def point(i):
     await fut
 
 
+COMPLETED = []          # elements whose method body ran to its end (returned or raised by itself)
+
+
+def make_view(m, k):
+    """a class-based view registered without a context whose method keeps per-call state on `self` across its
+    suspension points (every request must get its own view instance)"""
+    name = m['name']
+
+    class V(pjrpc.server.ViewMixin):
+        def __init__(self, context=None):
+            super().__init__()
+            self.context = context
+
+        async def vm(self, a):
+            ALOG.append({'i': str(a), 'ev': {'e': 'exec', 'm': name, 'recv': enc({'a': a, '<self.context>': '<none>'})}})
+            self.mine = a
+            for _ in range(k):
+                await point(a)
+            COMPLETED.append(str(a))
+            return {'a': self.mine, '<self.context>': '<none>'}
+    return V
+
+
 def make_method(m, k, coroutine):
     name, body = m['name'], m['body']
 
@@ -50,6 +73,7 @@ def make_method(m, k, coroutine):
         ALOG.append({'i': str(a), 'ev': {'e': 'exec', 'm': name, 'recv': enc({'a': a})}})
 
     def outcome(a):
+        COMPLETED.append(str(a))
         kind = body['k']
         if kind == 'echo':
             return {'a': a}
@@ -78,7 +102,7 @@ def make_method(m, k, coroutine):
 def make_mw(idx, k):
     async def mw(request, context, handler):
         i = elem_of(request)
-        ALOG.append({'i': str(i), 'ev': {'e': 'enter', 'i': str(idx), 'm': request.method, 'ctx': 'CTX' if context is S.CTX else repr(context)}})
+        ALOG.append({'i': str(i), 'ev': {'e': 'enter', 'i': str(idx), 'm': request.method, 'ctx': S.ctx_label(context)}})
         for _ in range(k):
             await point(i)
         r = await handler(request, context)
@@ -112,7 +136,10 @@ def build(c):
             for e in cfg['handlers']}
     d = pjrpc.server.AsyncDispatcher(**kwargs)
     for m in cfg['methods']:
-        d.add(make_method(m, body_k.get(m['name'], 0), m.get('coroutine', True)), m['name'])
+        if m.get('view'):
+            d.registry.add_methods(pjrpc.server.dispatcher.ViewMethod(make_view(m, body_k.get(m['name'], 0)), 'vm', m['name'], None))
+        else:
+            d.add(make_method(m, body_k.get(m['name'], 0), m.get('coroutine', True)), m['name'])
     return d
 
 
@@ -133,7 +160,7 @@ async def settle():
 
 
 async def drive(d, text, schedule, concurrent, n):
-    task = asyncio.ensure_future(d.dispatch(text, context=S.CTX))
+    task = asyncio.ensure_future(d.dispatch(text, context=S.next_ctx()))
     await settle()
     effective = []
     for idx in schedule:
@@ -164,6 +191,7 @@ async def drive(d, text, schedule, concurrent, n):
 
 def run_impl(c):
     del ALOG[:]
+    del COMPLETED[:]
     PENDING.clear()
     d = build(c)
     lr = c['load']
@@ -172,6 +200,9 @@ def run_impl(c):
     out = S.observe(r, [])
     out.pop('events')
     out['log'] = list(ALOG)
+    # at the moment dispatch returned: the elements whose method started, and those whose method ran to its end
+    out['started'] = sorted(x['i'] for x in ALOG if x.get('ev', {}).get('e') == 'exec')
+    out['completed'] = sorted(COMPLETED)
     out['effective_schedule'] = (list(range(n)) + effective) if c['concurrent'] else []
     # element-wise reference on a fresh dispatcher, no suspension, for the oracle
     if c.get('elementwise') and lr['k'] == 'ok' and lr['j'][0] == 'a':
@@ -207,12 +238,13 @@ def methods(fail_k=None):
         M('echo', [P('a')], D.ECHO),
         M('slow', [P('a')], D.ECHO),
         M('plain', [P('a')], D.ECHO, coroutine=False),
+        M('vslow', [P('a')], D.ECHO, view=True),
         M('fail_rpc', [P('a')], D.err_body(data={'d': 1})),
         M('fail_exc', [P('a')], D.exc_body()),
     ]
 
 
-ELEMS = [('echo', True), ('echo', False), ('slow', True), ('plain', True), ('fail_rpc', True), ('fail_rpc', False),
+ELEMS = [('echo', True), ('echo', False), ('slow', True), ('slow', False), ('vslow', True), ('plain', True), ('fail_rpc', True), ('fail_rpc', False),
          ('fail_exc', True), ('nosuch', True), ('nobind', True)]
 
 
@@ -243,7 +275,7 @@ def susp_count(elem, susp, cfg):
     k = 0
     if cfg.get('middlewares'):
         k += susp['mw0']
-    runs_body = kind in ('echo', 'slow', 'fail_rpc', 'fail_exc') and len(elem.get('params', [])) == 1
+    runs_body = kind in ('echo', 'slow', 'vslow', 'fail_rpc', 'fail_exc') and len(elem.get('params', [])) == 1
     if runs_body:
         k += body_k.get(kind, 0)
     fails = kind in ('fail_rpc', 'fail_exc', 'nosuch') or len(elem.get('params', [])) != 1
@@ -259,10 +291,10 @@ def generate(tier, rng):
         for table in (None, [{'key': None, 'hs': [{'k': 'ident'}]}]):
             configs.append(D.cfg(methods=methods(), middlewares=[{'k': 'pass'}] * nmw, handlers=table))
     susps = [
-        {'body': [['echo', 1], ['slow', 2], ['fail_rpc', 1], ['fail_exc', 1]], 'mw0': 0, 'handler': 0},
-        {'body': [['echo', 2], ['slow', 1], ['fail_rpc', 0], ['fail_exc', 2]], 'mw0': 0, 'handler': 0},
-        {'body': [['echo', 1], ['slow', 0]], 'mw0': 1, 'handler': 0},
-        {'body': [['echo', 0], ['slow', 1]], 'mw0': 0, 'handler': 1},
+        {'body': [['echo', 1], ['slow', 2], ['vslow', 1], ['fail_rpc', 1], ['fail_exc', 1]], 'mw0': 0, 'handler': 0},
+        {'body': [['echo', 2], ['slow', 1], ['vslow', 2], ['fail_rpc', 0], ['fail_exc', 2]], 'mw0': 0, 'handler': 0},
+        {'body': [['echo', 1], ['slow', 0], ['vslow', 1]], 'mw0': 1, 'handler': 0},
+        {'body': [['echo', 0], ['slow', 1], ['vslow', 1]], 'mw0': 0, 'handler': 1},
         {'body': [['echo', 1], ['fail_rpc', 1]], 'mw0': 1, 'handler': 1},
         {'body': [], 'mw0': 0, 'handler': 0},
     ]
@@ -316,15 +348,22 @@ def generate(tier, rng):
 # ------------------------------------------------------------------------------------------------
 
 def relevant(prop, c):
+    if prop == 'C07':
+        # C07 "notifications ... run every method once": batches with a notification, served under suspension
+        return '"id"' not in c['text'] or any('id' not in e for e in (dec(c['load']['j']) if c['load']['k'] == 'ok' and c['load']['j'][0] == 'a' else [])
+                                              if isinstance(e, dict))
     return prop in ('C10', 'C11', 'C02')
 
 
 def project(prop, c, out):
-    if prop not in ('C10', 'C11', 'C02'):
+    if prop not in ('C10', 'C11', 'C02', 'C07'):
         return None
     if out.get('incomplete'):
         return {'incomplete': True}
     r = out['result']
+    if prop == 'C07':
+        return {'k': r['k'], 'all_completed': out.get('started', []) == out.get('completed', []),
+                'exec': sorted(json.dumps(x, sort_keys=True) for x in out['log'] if x.get('ev', {}).get('e') == 'exec')}
     if prop == 'C02':
         # C02 under suspension: which ids are answered, in which order, and which methods ran how often
         doc = D._decoded(out) if r['k'] == 'reply' else None
@@ -335,7 +374,9 @@ def project(prop, c, out):
     if c.get('single_or_rejected'):
         # a single request has no batch scheduling: compare the result and the per-element events only
         log = [x for x in log if 'ev' in x]
-    return {'result': {k: r.get(k) for k in ('k', 'doc', 'codes', 'exc')}, 'log': log}
+    return {'result': {k: r.get(k) for k in ('k', 'doc', 'codes', 'exc')}, 'log': log,
+            # every method that started has run to its end when dispatch returns (the model has no other behaviour)
+            'all_completed': out.get('started', []) == out.get('completed', [])}
 
 
 def label(c, mo):
@@ -348,12 +389,17 @@ def label(c, mo):
 
 def oracle(prop, c, out):
     f = []
-    if prop not in ('C10', 'C02', 'C11') or 'elements' not in out:
+    if prop not in ('C10', 'C02', 'C11', 'C07') or 'elements' not in out:
         return f
 
     def fail(key, what, expected=None):
         f.append(Finding(prop, key, what, c, {'result': out['result'], 'log': out['log'], 'schedule': out['effective_schedule']}, expected))
     refs = out['elements']
+    if out['started'] != out['completed'] and prop in ('C10', 'C02', 'C07'):
+        fail('execution-incomplete', f'when dispatch returned the methods of elements {out["started"]} had started but only '
+                                     f'{out["completed"]} had run to their end (every method runs exactly once, to completion)')
+    if prop == 'C07':
+        return f
     want_docs = [D._decoded(x) for x in refs if x['result']['k'] == 'reply']
     r = out['result']
     if r['k'] == 'raised':
